@@ -204,7 +204,7 @@ partial def loop (hIn hOut : IO.FS.Stream) : IO Unit := do
   if line.isEmpty then
     hOut.flush
     return ()
-  let line := (line.dropRightWhile (fun c => c == '\n' || c == '\r'))
+  let line := (line.dropEndWhile (fun c => c == '\n' || c == '\r')).toString
   let ws := (line.splitOn " ").filter (fun w => !w.isEmpty)
   hOut.putStrLn (step ws)
   loop hIn hOut
